@@ -37,6 +37,12 @@ def all_configs():
         for ls in (False, True):
           for lt in (False, True):
             out.append({'host': host, 'build': b, 'instrumented': flag, 'live_spy': ls, 'live_trace': lt})
+  # the decorator on some of the states only (which ones is drawn per scenario)
+  out.append({'host': 'plain', 'build': 'closure-mixed'})
+  out.append({'host': 'instrumented', 'build': 'closure-mixed'})
+  for host in ('queued', 'ao'):
+    for flag in (True, False):
+      out.append({'host': host, 'build': 'closure-mixed', 'instrumented': flag, 'live_spy': False, 'live_trace': False})
   return out
 
 
@@ -80,6 +86,7 @@ def generate(seed, stratum, tier):
   k = 6 if tier == 'quick' else 10
   picks = rng.sample(range(1, len(CONFIGS)), k)
   sc['configs'] = [0] + sorted(picks)
+  sc['mix'] = rng.randrange(1 << 30)
   return sc
 
 
